@@ -11,7 +11,7 @@ import (
 
 func init() {
 	register(&Prop{
-		ID: "C08",
+		ID:          "C08",
 		Explanation: "Decides that the authorisation predicates guard every serving path: every nil-error return of getAuthenticatedSession that is not a configured bypass re-ran Validator(session.Email) (skipped only for an empty e-mail) and provider.Authorize(session) with outcome true, and every ErrAccessDenied return first calls ClearSessionCookie; the login callback saves a session only after Validator(session.Email) && Authorize(session); the auth-only 202 writer is reached only after authOnlyAuthorize(req, session)==true for the session getAuthenticatedSession returned; authOnlyAuthorize returns true only for a nil session or after every element of a constraint list containing the three query constraints returned true; each query constraint returns true only when its parameter is absent or a membership test on the session's own field succeeded; the only Provider.Authorize implementation returns true only for an empty allowed-groups map or a membership hit of a session group.",
 		NotDecided:  "string semantics of the e-mail/domain validators (isEmailValidWithDomains, IsEndpointAllowed suffix rules) and of UserMap contents: values, not code shape.",
 		Run:         runC08,
